@@ -15,8 +15,9 @@ open GIV GIV.Lockedfile
 
 /-! ### regenerated facts -/
 
-/-- The source still has the statement shapes that the model's programs hard-code. -/
-theorem facts_program_shape : programShape = true := by decide
+/-- The source still has the statement shapes that the model's programs hard-code: the locking code and
+the bodies of Read / Write / Transform (tail-first growth, deferred roll-back). -/
+theorem facts_program_shape : programShapeLock = true ∧ programShapeData = true := by decide
 
 /-- What openFile passes to open(2) never carries O_TRUNC, for ALL flag values (`Gen.stripsTrunc`):
 the truncation that Write / Create ask for happens only after the lock (`Gen.truncAfterLock`). -/
